@@ -592,9 +592,12 @@ def run(chk):
         chk.violation(key, what[:400], rd, no_input=True)
     chk.proof_broken(failed, found_concrete)
 
-    chk.cov["evaluations"] = stats["snapshots"] + stats["ops_executed"] + fb_pairs
+    # evaluations = individual consistency facts checked on real graphs (edges, call-site and closure links, global
+    # locations) + operations executed on real objects + forward/backward pairs
+    chk.cov["evaluations"] = (stats.get("edges_checked", 0) + stats.get("callsite_links_checked", 0) + stats.get("closure_links_checked", 0)
+                              + stats.get("global_locations_checked", 0) + stats["ops_executed"] + fb_pairs)
     chk.cov["distinct_nontrivial"] = len(distinct)
-    chk.cov["rule"] = ("graph snapshots validated (every summary of the loaded program incl. std library) + operations executed on "
+    chk.cov["rule"] = ("consistency facts checked on graph snapshots (every summary of the loaded program incl. std library) + operations executed on "
                        "real objects + forward/backward pairs; non-trivial = summary graph with >=1 edge, distinct = distinct "
                        "(function name, multiset of (source kind, destination kind, index) edges)")
     chk.cov["traces_validated_against_impl"] = stats["snapshots"] + stats["op_batches"] - stats["tdump_mismatch"]
